@@ -200,6 +200,31 @@ fn c05_regret_match_positive_full2() {
     assert!(s[0] > 0.0 || s[1] > 0.0, "C05 profile: regret-matched strategy has no positive entry");
 }
 
+/// C12 — scaling: multiplying every cumulative regret by 2 leaves the matched strategy unchanged
+/// (bit for bit) and doubles the reported bound.
+#[kani::proof]
+#[kani::unwind(5)]
+fn c12_scale_match_and_bound() {
+    let r0: [f64; 3] = [small_int(), small_int(), small_int()];
+    let w = any_weight_special();
+    kani::assume(w != 1.0);
+    let it: u8 = kani::any();
+    kani::assume(it >= 1 && it <= 16);
+    let p = RegretParams::new(1.5, 0.0, 2.0, w);
+    let (mut a, mut b) = (r0, [2.0 * r0[0], 2.0 * r0[1], 2.0 * r0[2]]);
+    let (mut sa, mut sb) = ([0.0; 3], [0.0; 3]);
+    p.regret_match(&mut a, &mut sa);
+    p.regret_match(&mut b, &mut sb);
+    let ba = p.cum_regret(it as u64, &mut a);
+    let bb = p.cum_regret(it as u64, &mut b);
+    kani::cover!(r0[0] > 0.0 && r0[1] > 0.0 && r0[0] != r0[1], "two unequal positive regrets");
+    kani::cover!(r0[0] <= 0.0 && r0[1] <= 0.0 && r0[2] <= 0.0, "no positive regret");
+    for i in 0..3 {
+        assert!(sa[i].to_bits() == sb[i].to_bits(), "C12 scale: multiplying payoffs (hence regrets) by c must not change the strategy");
+    }
+    assert!(bb == 2.0 * ba, "C12 scale: multiplying payoffs by c must multiply the bound by c");
+}
+
 #[cfg(test)]
 #[path = "/verif/.work/playback/rmatch.rs"]
 mod pb;
